@@ -39,8 +39,9 @@ from mcx.core.kernel import res, VERIF
 ID = 'C04'
 LEVEL = 'model_checking'
 NONTRIVIAL = ('a case whose start states are not only the two seeds the test-suite uses (default all-ones, 0->1) and whose '
-              'output contains both symbols; counted per case (= chunk of start states / one segment / one seed), each '
-              'case having a distinct (order, start-state set, length alphabet) tag')
+              'output contains both symbols; counted per case (= chunk of start states / one segment / one seed value), each '
+              'case having a distinct (order, start-state set, length alphabet) tag; validation cases count when the '
+              '(order, len, seed) triple is not one the test-suite already asserts')
 
 # documented taps (n, t) of the ITU-T O.150 polynomials x^n + x^t + 1 (property text / docstring),
 # written down here independently of the table inside PRBS
@@ -288,7 +289,7 @@ def compare_call(viol, n, t, seed_eff, L, bits, st, arr, what):
                      f'{seed_eff} gives {int(ref[i])}'))
         ok = False
     exp = window(arr, n, L)
-    if int(st) != exp:
+    if int(st) % (1 << n) != exp:       # the state is only ever used as a seed, i.e. modulo 2^n
         viol.append(('resume:state!=model',
                      f'{what}: returned state {int(st)} but the window after {L} outputs is {exp} (it must resume the stream)'))
         ok = False
@@ -306,7 +307,7 @@ def case_full(case):
         return res(viol=[('api:shape', str(e))], obs=('shape', n))
     arr = ref_stream(n, t, 1, P)
     compare_call(viol, n, t, 1, P, bits, st, arr, f'PRBS({n}, 2^{n}-1, seed=1)')
-    if int(st) != 1:
+    if int(st) % (1 << n) != 1:
         viol.append(('period:state-not-back-after-2^n-1', f'order {n}: state after 2^{n}-1 shifts from 1 is {int(st)}, not 1'))
     ones = int(bits.sum(dtype=np.int64))
     if ones != 1 << (n - 1):
@@ -382,7 +383,7 @@ def case_steps(case):
                     o = int(bits[:P].sum())
                     if o != 1 << (n - 1):
                         viol.append(('period:ones!=2^(n-1)', f'{what}: {o} ones in the first 2^{n}-1 outputs, expected {1 << (n - 1)}'))
-                if L == P and int(st) != s:
+                if L == P and int(st) % (1 << n) != s:
                     viol.append(('period:state-not-back-after-2^n-1', f'{what}: returned state {int(st)} != start state'))
                 if L >= 2 * P:
                     if not np.array_equal(bits[:L - P], bits[P:]):
@@ -467,7 +468,7 @@ def case_hist(case):
                     viol.append(('resume:split!=single-call',
                                  f'order {n} seed {s}: calls of lengths {seq} with the returned state fed back differ from the single '
                                  f'call of {tot} at bit {i} ({int(cat[i])} vs {int(b1[i])})'))
-                if int(cur) != s1:
+                if (int(cur) - s1) % (1 << n):
                     viol.append(('resume:split-state!=single-call',
                                  f'order {n} seed {s}: final state after calls {seq} is {int(cur)}, after the single call of {tot} it is {s1}'))
     except Shape as e:
@@ -502,7 +503,7 @@ def case_seed(case):
     arr = ref_stream(n, t, target, L)
 
     def matches(b, s_):
-        return np.array_equal(b, arr[n - 1:n - 1 + L]) and int(s_) == window(arr, n, L)
+        return np.array_equal(b, arr[n - 1:n - 1 + L]) and int(s_) % (1 << n) == window(arr, n, L)
 
     if not matches(bits, st):
         # classify (nothing is dropped): if the call with the canonical representative itself is wrong, this is a stream
@@ -561,7 +562,8 @@ def case_valid(case):
     try:
         PRBS(order=order, len=L, seed=seed, return_seed=True)
     except accept as e:
-        return res(obs=(kind, order, label, seed, type(e).__name__), nontrivial=(kind, order, label, seed),
+        in_tests = (kind, order, L, seed) in (('order', 8, None, None), ('len', 7, 0, None))
+        return res(obs=(kind, order, label, seed, type(e).__name__), nontrivial=(False if in_tests else (kind, order, label, seed)),
                    stats={'validation_cases': 1})
     except (TypeError, ValueError) as e:    # only reachable for kind == 'order'
         return res(viol=[('valid:order-wrong-exception', f'{what}: raised {type(e).__name__} ({e}), the statement requires ValueError')],
